@@ -105,9 +105,11 @@ class State:
         self.ctrl = frozenset()       # provenance steering this path
         self.marks = set()            # read ids marked affecting on this path
         self.diag_depth = 0
+        self.yielded = None           # list while a generator body is folded
 
     def fork(self):
         s = State(dict(self.env), dict(self.assume))
+        s.yielded = None if self.yielded is None else list(self.yielded)
         for k, v in s.env.items():
             if isinstance(v, V) and v.kind == "dict":
                 s.env[k] = V("dict", v.val.copy(), v.prov)
@@ -254,7 +256,16 @@ class Evaluator:
         return True
 
     def _stmt(self, s, st, rel):
-        if isinstance(s, ast.Expr):
+        if isinstance(s, ast.Expr) and isinstance(s.value, ast.Yield) \
+                and st.yielded is not None:
+            if s.value.value is None:
+                st.yielded.append(const(None))
+                yield st, None, None
+                return
+            for st2, v in self._expr(s.value.value, st, rel):
+                st2.yielded.append(v)
+                yield st2, None, None
+        elif isinstance(s, ast.Expr):
             for st2, v in self._expr(s.value, st, rel):
                 yield st2, None, None
         elif isinstance(s, (ast.Assign, ast.AnnAssign)):
@@ -380,7 +391,63 @@ class Evaluator:
                 f"effect analysis: unsupported statement {type(s).__name__} "
                 f"at {rel}:{s.lineno}")
 
+    def _generator_items(self, call, st, rel):
+        """values yielded by a call of a package generator function whose
+        body folds to one path with concrete items (e.g. nested loops over
+        literals), else None"""
+        if not (isinstance(call, ast.Call) and isinstance(call.func, ast.Name)
+                and not call.keywords):
+            return None
+        target = None
+        if call.func.id in st.env and st.env[call.func.id].kind == "func":
+            target = st.env[call.func.id].val
+        elif self.resolver:
+            target = self.resolver(rel, call.func.id)
+        if target is None:
+            return None
+        trel, fdef = target
+        if not isinstance(fdef, ast.FunctionDef) or not any(
+                isinstance(n, (ast.Yield, ast.YieldFrom))
+                for n in ast.walk(fdef)) or any(
+                isinstance(n, ast.YieldFrom) for n in ast.walk(fdef)):
+            return None
+        params = [a.arg for a in fdef.args.args]
+        if len(call.args) != len(params) or self.depth >= self.MAX_DEPTH:
+            return None
+        gst = State()
+        for k, v in st.env.items():
+            if isinstance(v, V) and v.kind == "func":
+                gst.env[k] = v
+        for p_, a_ in zip(params, call.args):
+            r = list(self._expr(a_, st, rel))
+            if len(r) != 1 or r[0][1].kind != "const":
+                return None
+            gst.env[p_] = r[0][1]
+        gst.yielded = []
+        self.depth += 1
+        try:
+            outs = list(self._block(fdef.body, gst, trel))
+        finally:
+            self.depth -= 1
+        if len(outs) != 1 or outs[0][1] not in (None, "return"):
+            return None
+        items = outs[0][0].yielded
+
+        def concrete(v):
+            if v.kind == "const":
+                return True
+            return v.kind in ("tuple", "list") and isinstance(
+                v.val, (list, tuple)) and all(
+                isinstance(e, V) and concrete(e) for e in v.val)
+        if not all(concrete(v) for v in items):
+            return None
+        return items
+
     def _for(self, s, st, rel):
+        gen = self._generator_items(s.iter, st, rel)
+        if gen is not None:
+            yield from self._unroll(s, gen, st, rel)
+            return
         for st2, it in self._expr(s.iter, st, rel):
             items = self._concrete_items(it)
             if items is None:
